@@ -134,6 +134,24 @@ pub fn generate(seed: u64, thorough: bool, sink: &mut Sink) -> Vec<String> {
     comp.push(format!("x := |a<{}> b<bool>| 1 true | 2 false | 3 true |", k));
     comp.push(format!("x := |a<{}>| 7 | 8 |", k));
   }
+  // every integer kind as the element kind of a table column, a set, a tuple and a matrix nested in a tuple:
+  // negative values for the signed kinds, values above the signed range for the unsigned ones, column position varied
+  for (k, bits, signed) in [("u8", 8u32, false), ("i8", 8, true), ("u16", 16, false), ("i16", 16, true), ("u32", 32, false), ("i32", 32, true),
+                            ("u64", 64, false), ("i64", 64, true), ("u128", 128, false), ("i128", 128, true)] {
+    let hi: u128 = if bits >= 64 { (1u128 << 52) + 5 } else if signed { (1u128 << (bits - 1)) - 1 } else { (1u128 << bits) - 1 };
+    let a = if signed { format!("-{}", 2 + rng.below(100)) } else { format!("{}", hi) };
+    let b = format!("{}", 1 + rng.below(100));
+    let c = if signed { format!("-{}", 1 + rng.below(9)) } else { format!("{}", hi - 1) };
+    comp.push(format!("x := |a<u8> b<{}>| 1 {} | 3 {} |", k, a, b));
+    comp.push(format!("x := |b<{}> a<string>| {} \"p\" | {} \"q\" | {} \"r\" |", k, b, a, c));
+    comp.push(format!("x := |a<{}> b<{}>| {} {} | {} {} |", k, k, a, b, c, a));
+    comp.push(format!("x := |a<{}>| {} |", k, a));
+    if !signed {
+      comp.push(format!("x := {{{}{}, {}{}}}", hi, k, b, k));
+      comp.push(format!("x := ({}{}, {}{})", b, k, hi, k));
+      comp.push(format!("x := ({}{}, \"s\", [{}{} {}{}])", b, k, b, k, hi, k));
+    }
+  }
   push("compound", comp, sink);
   out
 }
